@@ -420,6 +420,25 @@ func collect(n *Node, v reflect.Value, o *Opts, top int, absent bool) {
 			case reflect.String:
 				// encoding/json quotes twice, ojg documents nothing: both accepted
 				val.Alts = append(val.Alts, str(strconv.Quote(fv.String())))
+			case reflect.Ptr:
+				// encoding/json applies the option through a pointer to a
+				// scalar, ojg documents nothing: both accepted
+				if !fv.IsNil() {
+					switch ev := fv.Elem(); ev.Kind() {
+					case reflect.Bool:
+						val.Alts = append(val.Alts, str(strconv.FormatBool(ev.Bool())))
+					case reflect.Int, reflect.Int8, reflect.Int16, reflect.Int32, reflect.Int64:
+						val.Alts = append(val.Alts, str(strconv.FormatInt(ev.Int(), 10)))
+					case reflect.Uint, reflect.Uint8, reflect.Uint16, reflect.Uint32, reflect.Uint64:
+						val.Alts = append(val.Alts, str(strconv.FormatUint(ev.Uint(), 10)))
+					case reflect.Float32:
+						val.Alts = append(val.Alts, str(strconv.FormatFloat(ev.Float(), 'g', -1, 32)))
+					case reflect.Float64:
+						val.Alts = append(val.Alts, str(strconv.FormatFloat(ev.Float(), 'g', -1, 64)))
+					case reflect.String:
+						val.Alts = append(val.Alts, str(strconv.Quote(ev.String())))
+					}
+				}
 			}
 		}
 		pres, keep := memberPresence(fv, val, o, true)
